@@ -387,13 +387,17 @@ def natural_run(tdgl, a, tmp):
     remeshed = None
     if a.get("remesh"):
         # mesh-refinement loop on ONE Device object: mesh, look at it, mesh again (finer), then solve
+        from tdgl.geometry import box
         d0 = dev
-        dev = tdgl.Device(d0.name, layer=d0.layer, film=d0.film, holes=d0.holes, terminals=list(d0.terminals),
+        # coarse film outline: the finer meshing inserts boundary sites, also on the terminals
+        film = tdgl.Polygon("film", points=box(5.0, 3.0, points=a.get("film_points", 12)))
+        dev = tdgl.Device(d0.name, layer=d0.layer, film=film, holes=d0.holes, terminals=list(d0.terminals),
                           probe_points=d0.probe_points, length_units=d0.length_units)
         counts = []
         for mel in a["remesh"]:
             dev.make_mesh(max_edge_length=mel, smooth=0)
-            counts.append((len(dev.points), len(terminal_site_oracle(dev)[0]), len(dev.terminal_info())))
+            _ = dev.points, dev.terminal_info()        # what a refinement loop looks at between two meshings
+            counts.append((len(dev.mesh.sites), len(terminal_site_oracle(dev)[0])))
         remeshed = counts
     v = _parse_psi(a.get("terminal_psi", [0.0, 0.0]))
     dt = a.get("dt", 2.0 ** -6)
